@@ -81,16 +81,49 @@ package tmstate
 //@ define TimerInv(rlc) = ((rlc.StepTimer != nil) == (rlc.CancelTimer != nil)) && ((rlc.CancelTimer != nil) == timedStep(rlc.S)) &&
 //@     timers(0) == (rlc.CancelTimer != nil ? 1 : 0)
 
-// Round/height changes (large functions, not yet verified themselves): what their callers rely on.
-// (When they fail the context is cancelled and the state machine stops: its round state is not used again, so the timer
-// invariant is stated unconditionally here.)
+// envfailed(): the environment failed during the call - the context was cancelled (a gchan send or request gave up) or a
+// store returned an error. The round-change functions report failure for no other reason (C08/C09: the state machine
+// does not stop on its own).
+// Round/height changes. Idle: no step timer is outstanding at all - the state after a round change that failed (the
+// context is cancelled or the store failed: the state machine is stopping) or that found the mirror ahead (catching up:
+// the step is meaningless until the next round entrance). A successful live round change re-establishes TimerInv.
+//@ define Idle(rlc) = rlc.CancelTimer == nil && rlc.StepTimer == nil && timers(0) == 0
+//@ define timerKnown(rlc) = ((rlc.StepTimer != nil) == (rlc.CancelTimer != nil)) && (rlc.CancelTimer != nil ? timers(0) == 1 : timers(0) == 0)
+// The position announced to the mirror is the one just recorded in the state machine store (C10), and it is after the
+// position left (C08): same height and a later round, or round 0 of the next height.
+//@ iface tmstore.StateMachineStore.SetStateMachineHeightRound(st, ctx, height, round)
+//@   ensures result == nil ==> sminit(0) && smh(0) == height && smr(0) == round
+//@   ensures result != nil ==> envfailed() && sminit(0) == old(sminit(0)) && smh(0) == old(smh(0)) && smr(0) == old(smr(0))
+//@   modifies sminit(0), smh(0), smr(0)
 //@ func StateMachine.advanceRound
-//@   trusted
-//@   ensures TimerInv(rlc)
+//@   property C08 C10 C12
+//@   assumes round-number-fits-32-bits: rlc.R < MAXU32
+//@   requires m.smStore != nil && m.cm != nil && timerKnown(rlc) && rlc.PrevConsideredHashes != nil
+//@   ensures timer-inv: TimerInv(rlc) || Idle(rlc)
+//@   ensures fails-only-with-the-environment: !result ==> envfailed()
+//@   ensures later-round-of-the-height: rlc.H == old(rlc.H) && rlc.R > old(rlc.R)
 //@   modifies heap
 //@ func StateMachine.advanceHeight
-//@   trusted
-//@   ensures TimerInv(rlc)
+//@   property C08 C10 C12
+//@   assumes height-fits-64-bits: rlc.H < MAXU64
+//@   requires m.smStore != nil && m.cm != nil && timerKnown(rlc) && rlc.PrevConsideredHashes != nil
+//@   ensures timer-inv: TimerInv(rlc) || Idle(rlc)
+//@   ensures fails-only-with-the-environment: !result ==> envfailed()
+//@   ensures next-height: rlc.H == old(rlc.H) + 1
+//@   modifies heap
+//@ func StateMachine.advance
+//@   property C08 C10 C12
+//@   option reqresp-keeps RoundLifecycle, ghost timers, ghost sminit, ghost smh, ghost smr
+//@   assumes round-number-fits-32-bits: rlc.R < MAXU32
+//@   requires m.smStore != nil && m.cm != nil && Idle(rlc) && re.Response != nil
+//@   requires rlc.PrevoteHashCh != nil && rlc.PrecommitHashCh != nil && rlc.PrevConsideredHashes != nil
+//@   requires announced-position-is-recorded: sminit(0) && re.H == smh(0) && re.R == smr(0) && re.H == rlc.H && re.R == rlc.R
+//@   rely after roundEntranceOutCh the-mirror-answers-with-a-view-that-has-voting-power: response.VRV.Height > 0 ==> response.VRV.VoteSummary.AvailablePower > 0
+//@   rely after EnterRoundRequests the-consensus-strategy-accepts-the-round: response == nil
+//@   site reqresp roundEntranceOutCh announces-the-recorded-position: sminit(0) && reqValue.H == smh(0) && reqValue.R == smr(0) && reqValue.H == rlc.H && reqValue.R == rlc.R
+//@   ensures timer-inv: TimerInv(rlc) || Idle(rlc)
+//@   ensures fails-only-with-the-environment: !result ==> envfailed()
+//@   ensures same-height-no-earlier-round: rlc.H == old(rlc.H) && rlc.R >= old(rlc.R)
 //@   modifies heap
 
 //@ func StateMachine.recordPrevote
@@ -125,24 +158,28 @@ package tmstate
 //@     !(3 * vs.PrecommitBlockPower[vs.MostVotedPrecommitHash] > 2 * vs.AvailablePower)
 
 //@ func StateMachine.beginCommit
-//@   property C08 C12
+//@   property C08 C12 C09
 //@   requires blockQuorum(vrv.VoteSummary)
 //@   requires timers(0) == 0
-//@   ensures commit-wait-armed: rlc.S == tsi.StepCommitWait && TimerInv(rlc)
+//@   ensures commit-wait-armed: rlc.S == tsi.StepCommitWait && TimerInv(rlc) && rlc.H == old(rlc.H) && rlc.R == old(rlc.R)
+//@   ensures[C08,C09] fails-only-with-the-environment: !result ==> envfailed()
 //@   modifies heap
 
+//@ define smReady(m, rlc) = m.smStore != nil && m.cm != nil && rlc.PrevConsideredHashes != nil
 //@ func StateMachine.handlePrecommitViewUpdate
 //@   property C08 C12
-//@   requires TimerInv(rlc) && vrv.VoteSummary.AvailablePower > 0
+//@   requires TimerInv(rlc) && vrv.VoteSummary.AvailablePower > 0 && smReady(m, rlc)
 //@   requires rlc.S == tsi.StepAwaitingPrecommits || rlc.S == tsi.StepPrecommitDelay
-//@   ensures timer-inv-kept: TimerInv(rlc)
+//@   ensures timer-inv-kept: TimerInv(rlc) || Idle(rlc)
+//@   ensures[C08] forward-only: rlc.H == old(rlc.H) && rlc.R >= old(rlc.R)
 //@   modifies heap
 
 //@ func StateMachine.handlePrevoteViewUpdate
 //@   property C08 C12
-//@   requires TimerInv(rlc) && vrv.VoteSummary.AvailablePower > 0 && rlc.PrecommitHashCh != nil
+//@   requires TimerInv(rlc) && vrv.VoteSummary.AvailablePower > 0 && rlc.PrecommitHashCh != nil && smReady(m, rlc)
 //@   requires rlc.S == tsi.StepAwaitingPrevotes || rlc.S == tsi.StepPrevoteDelay
-//@   ensures timer-inv-kept: TimerInv(rlc)
+//@   ensures timer-inv-kept: TimerInv(rlc) || Idle(rlc)
+//@   ensures[C08] forward-only: rlc.H == old(rlc.H) && rlc.R >= old(rlc.R)
 //@   modifies heap
 
 //@ func tsi.ConsiderProposedBlocksRequest.MarkReasonNewHashes
@@ -156,8 +193,9 @@ package tmstate
 //@   property C08 C12 C07
 //@   option explicit-panics allowed
 //@   requires TimerInv(rlc) && rlc.S == tsi.StepAwaitingProposal && vrv.VoteSummary.AvailablePower > 0
-//@   requires rlc.VRV != nil && rlc.PrecommitHashCh != nil && rlc.PrevoteHashCh != nil && rlc.PrevConsideredHashes != nil
-//@   ensures timer-inv-kept: TimerInv(rlc)
+//@   requires rlc.VRV != nil && rlc.PrecommitHashCh != nil && rlc.PrevoteHashCh != nil && smReady(m, rlc)
+//@   ensures timer-inv-kept: TimerInv(rlc) || Idle(rlc)
+//@   ensures[C08] forward-only: rlc.H == old(rlc.H) && rlc.R >= old(rlc.R)
 //@   modifies heap
 
 //@ func StateMachine.handleBlockDataArrival
@@ -166,11 +204,14 @@ package tmstate
 //@   modifies heap
 
 //@ func StateMachine.handleTimerElapsed
-//@   property C08 C12 C07
-//@   requires TimerInv(rlc) && timedStep(rlc.S) && rlc.VRV != nil
+//@   property C08 C12 C07 C09
+//@   requires TimerInv(rlc) && timedStep(rlc.S) && rlc.VRV != nil && smReady(m, rlc)
 //@   requires rlc.S == tsi.StepAwaitingProposal ==> rlc.PrevoteHashCh != nil
 //@   requires rlc.S == tsi.StepPrevoteDelay ==> rlc.PrecommitHashCh != nil
-//@   ensures timer-inv-kept: result ==> TimerInv(rlc)
+//@   ensures timer-inv-kept: TimerInv(rlc) || Idle(rlc)
+//@   ensures[C08,C09] fails-only-with-the-environment: !result ==> envfailed()
+//@   ensures[C08] forward-only: rlc.H == old(rlc.H) + 1 || (rlc.H == old(rlc.H) && rlc.R >= old(rlc.R))
+//@   ensures[C08] round-left-only-at-precommit-delay-or-commit-wait: (old(rlc.S) == tsi.StepAwaitingProposal || old(rlc.S) == tsi.StepPrevoteDelay) ==> rlc.H == old(rlc.H) && rlc.R == old(rlc.R)
 //@   ensures[C08] step-after-timeout: result ==> (old(rlc.S) == tsi.StepAwaitingProposal ==> rlc.S == tsi.StepAwaitingPrevotes) &&
 //@       (old(rlc.S) == tsi.StepPrevoteDelay ==> rlc.S == tsi.StepAwaitingPrecommits)
 //@   ensures[C08] one-request-per-timeout: result ==>
@@ -232,5 +273,8 @@ package tmstate
 //@   property C08 C09 C12
 //@   requires initVRV.VoteSummary.AvailablePower > 0 && timers(0) == 0 && rlc.CancelTimer == nil && rlc.StepTimer == nil
 //@   requires rlc.PrevoteHashCh != nil && rlc.PrecommitHashCh != nil && rlc.PrevConsideredHashes != nil
-//@   ensures timer-inv: result ==> TimerInv(rlc)
+//@   requires m.smStore != nil && m.cm != nil
+//@   ensures timer-inv: TimerInv(rlc) || Idle(rlc)
+//@   ensures fails-only-with-the-environment: !result ==> envfailed()
+//@   ensures same-height-no-earlier-round: rlc.H == old(rlc.H) && rlc.R >= old(rlc.R)
 //@   modifies heap
